@@ -229,6 +229,7 @@ def run(ctx) -> None:
     ploops = [n for n in gp.nodes if n.kind == "for"]
     inst = "_apply_state: every tag present in the state is set to its captured value"
     okp = False
+    spar = aps.node.args.args[1].arg if len(aps.node.args.args) > 1 else "state"
     if len(ploops) == 1 and "_iter_all_tags" in norm(ploops[0].ast.iter) and isinstance(ploops[0].ast.target, ast.Name):
         tv = ploops[0].ast.target.id
         sets = [n for n in gp.nodes if any(call_attr(c) == "set_value" and norm(c.func) == f"{tv}.set_value" for c in n.calls())]
@@ -238,8 +239,8 @@ def run(ctx) -> None:
             val = sv.args[0] if sv.args else None
             vdef = local_single_defs(aps).get(norm(val).split(".")[0]) if val is not None else None
             src_ok = val is not None and norm(val).endswith(".value") and (
-                f"state.get({tv}.name)" in norm(val) or (vdef is not None and norm(vdef) == f"state.get({tv}.name)"))
-            if conds2 == [(f"state.has({tv}.name)", True)] and src_ok:
+                f"{spar}.get({tv}.name)" in norm(val) or (vdef is not None and norm(vdef) == f"{spar}.get({tv}.name)"))
+            if conds2 == [(f"{spar}.has({tv}.name)", True)] and src_ok:
                 okp = True
     if okp:
         ctx.ok("R09e", inst)
